@@ -277,6 +277,26 @@ def put_broadcast(ctx, akind, vkind, cast, inplace, form):
     return ctx.done(ctx.AND(*oks), [ctx.observe(res), ctx.observe(a)], inplace=True)
 
 
+def width(ctx, fillkind, via):
+    """decided by its real-stack replay (dtype widths are not modelled): cast=True with a narrow-float value widens to a float that
+    still holds every other cell exactly"""
+    np = ctx.np
+    big = [16777217, 16777219, 33554433, 5]
+    a = ctx.mk(['x'], [[1, 2, 3, 4]], big, lkinds=['i'], kind='i')
+    v = {'float32': np.float32, 'float16': np.float16}[fillkind](0.5)
+    if via == 'put':
+        r = ctx.call(lambda: a.put(4, v, cast=True, inplace=False))
+    elif via == 'putmask':
+        r = ctx.call(lambda: a.put(np.array([False, False, False, True]), v, cast=True, inplace=False))
+    else:
+        r = ctx.call(lambda: a.setna(5))
+    if r[0] != 'ok':
+        return ctx.done(False, r[1])
+    got = r[1].values.tolist()
+    ok = ctx.AND(got[0] == 16777217, got[1] == 16777219, got[2] == 33554433, (got[3] == 0.5) if via != 'setna' else ctx.isnan(got[3]))
+    return ctx.done(ok, ctx.observe(r[1]))
+
+
 def _value_preserving(akind, vkind):
     if akind == 'O' or akind == vkind:
         return True
@@ -383,6 +403,9 @@ def templates():
                         continue
                     add('cast-%s-%s-%s-%s' % (ak, vk, cast, via), 'cast_pairs', cost=0.3, akind=ak, vkind=vk, cast=cast, via=via)
             add('cast-%s-%s-notinplace' % (ak, vk), 'cast_pairs', cost=0.3, akind=ak, vkind=vk, cast=True, via='put', inplace=False)
+    for fk in ('float32', 'float16'):
+        for via in ('put', 'putmask'):
+            add('width-%s-%s' % (fk, via), 'width', cost=0.1, fillkind=fk, via=via)
     for dk, vk in (('i', 'f'), ('f', 'i'), ('i', 'U'), ('f', 'f')):
         add('values-setter-%s-%s' % (dk, vk), 'values_setter', cost=0.3, dkind=dk, vkind=vk)
         for form in ('scalar', 'row', 'rowlist'):
